@@ -22,6 +22,7 @@ CONSTANTS
   StartBeforeEmit = FALSE
   CmdFreshTicket = TRUE
   TimeoutUsesRemove = FALSE
+  LossCancelsTimers = FALSE
   LstCode = "-"
 INVARIANT TypeOK
 INVARIANT DistinctTickets
